@@ -133,6 +133,11 @@ Definition object_frames (path : list pose) (s : selector) (f : Sc) (local : lis
 Definition path_trace (path : list pose) (f : Sc) : list V :=
   map (fun pq : pose => place None None sone f (place None None sone sone (fst pq))) path.
 
+(* get_generic_traces3D: the path trace exists iff np.array(obj.position).ndim > 1, i.e. the path has more than
+   one position (obj.position is squeezed) -- style.path.show left at its default True *)
+Definition path_trace_shown (path : list pose) (f : Sc) : option (list V) :=
+  if 1 <? zlen path then Some (path_trace path f) else None.
+
 (* nested local placements used by the shape functions *)
 Definition dipole_vertex (M R : G) (p : V) (f : Sc) (v : V) : V :=        (* make_Dipole: orientation=mag_orient *)
   drawn_vertex R p f (place (Some M) None sone sone v).
@@ -168,16 +173,19 @@ Definition alloc_copy (h : heap) (r : Z) : heap * Z :=
          yield                                   <- body, may raise
      finally:
          obj._style = orig_style                                          *)
+(* the part before `yield` *)
+Definition enter_style (o : Z) (style_temp : option Z) (copy : bool) (h : heap) : heap :=
+  let h1 := set_slot h o style_temp in
+  match style_temp with
+  | Some r => if copy then set_slot (fst (alloc_copy h1 r)) o (Some (snd (alloc_copy h1 r))) else h1
+  | None => h1
+  end.
+
 Definition style_temp_edit (o : Z) (style_temp : option Z) (copy : bool)
            (body : heap -> heap * outcome) (h : heap) : heap * outcome :=
   let orig := slot h o in
-  let h1 := set_slot h o style_temp in
-  let h2 := match style_temp with
-            | Some r => if copy then let '(h', r') := alloc_copy h1 r in set_slot h' o (Some r') else h1
-            | None => h1
-            end in
-  let '(h3, out) := body h2 in
-  (set_slot h3 o orig, out).
+  let h2 := enter_style o style_temp copy h in
+  (set_slot (fst (body h2)) o orig, snd (body h2)).
 
 (* get_traces_3D: for obj, params in flat_objs_props.items(): with style_temp_edit(obj, style, copy=True): body
    -- an exception leaves the loop *)
